@@ -270,6 +270,60 @@ def mon_filehistory(sh, seed, i, tier, valid):
         shutil.rmtree(tmpdir, ignore_errors=True)
 
 
+ENV_PROG = '''
+import json, sys, os
+from pathlib import Path
+from pydbml import PyDBML
+from pv.props.c11 import _dig
+pth = sys.argv[1]
+out = {}
+for name, call in (('PyDBML(Path)', lambda: PyDBML(Path(pth))), ('parse_file(str)', lambda: PyDBML.parse_file(pth)),
+                   ('parse_file(Path)', lambda: PyDBML.parse_file(Path(pth))), ('PyDBML(file)', lambda: PyDBML(open(pth, encoding='utf8')))):
+    try:
+        out[name] = _dig(call())
+    except Exception as e:
+        out[name] = 'EXC:' + type(e).__name__
+print(json.dumps(out))
+'''
+
+
+def mon_environment(sh, seed, i, tier, valid):
+    """'depends only on that document and the options passed': the same UTF-8 file parsed in a child interpreter whose locale
+    is not UTF-8 (LC_ALL=C, UTF-8 mode and locale coercion off) gives the outcome it gives here"""
+    import tempfile
+    if i % 4:
+        return
+    rng = random.Random(f'{seed}-env-{i}')
+    tmpdir = tempfile.mkdtemp(prefix='pv-c11e-', dir=os.environ.get('PV_SCRATCH') or None)
+    try:
+        for h in range({'quick': 2, 'thorough': 6}[tier]):
+            cands = [d for d in valid if not d['props'] and any(ord(ch) > 127 for ch in d['text'])]
+            if not cands:
+                sh.count('obs.environment_no_non_ascii_document')
+                return
+            d = rng.choice(cands)
+            want = out_digest(d)[0]
+            pth = os.path.join(tmpdir, f'e{h}.dbml')
+            with open(pth, 'w', encoding='utf8', newline='') as f:
+                f.write(d['text'])
+            env = dict(os.environ, LC_ALL='C', LANG='C', PYTHONUTF8='0', PYTHONCOERCECLOCALE='0', PYTHONIOENCODING='utf-8')
+            try:
+                p = subprocess.run([sys.executable, '-c', ENV_PROG, pth], env=env, stdout=subprocess.PIPE, stderr=subprocess.PIPE, text=True, timeout=120)
+                res = json.loads(p.stdout.strip().split('\n')[-1])
+            except Exception as e:  # noqa
+                sh.inconclusive.append(f'environment probe failed: {type(e).__name__}: {str(e)[:80]}')
+                continue
+            for name, got in res.items():
+                sh.case(['env', h, name], nontrivial=True, sample={'monitor': 'environment', 'route': name})
+                sh.count('obs.environment_probes')
+                if got != want:
+                    sh.violation('determinism', f'determinism:outcome-depends-on-the-process-locale:{name}',
+                                 f'{name} under LC_ALL=C without UTF-8 mode: {got[:24]}, here {want[:24]}', {'kind': 'env', 'doc': d, 'route': name})
+    finally:
+        import shutil
+        shutil.rmtree(tmpdir, ignore_errors=True)
+
+
 def mon_interleaved(sh, seed, i, tier, valid):
     """two parser objects exist at the same time (both constructed, then parsed in either order; a third parse in between):
     each still gives the outcome its document has on its own.  Uses the parser class of pydbml.parser (found by scan: a
@@ -493,6 +547,44 @@ def run_workers(sh, seed, i, tier, valid, synbad, sembad):
     sh.count('obs.distinct_interleavings', len(sigset))
 
 
+def mon_reentrant(sh, seed, i, tier, valid):
+    """same-thread re-entrancy: an inner parse started at the N-th function entry of an outer parse (fresh interpreter per
+    probe); both must give the outcome their documents give on their own, and the outer parse must come back"""
+    rng = random.Random(f'{seed}-reent-{i}')
+    scratch = os.environ.get('PV_SCRATCH') or '/tmp'
+    for h in range({'quick': 2, 'thorough': 12}[tier]):
+        if sh.out_of_time():
+            break
+        a, b = rng.sample(valid, 2)
+        spec = {'mode': 'reentrant', 'nthreads': 1, 'rounds': 1, 'perturb': 'none', 'seed': f'{seed}-{i}-re{h}', 'docs': [a, b],
+                'at': rng.choice([1, 3, 10, 40, 120, 400, 1500]), 'warm': rng.random() < 0.5}
+        sf = os.path.join(scratch, f'c11-re-{i}-{h}.json')
+        with open(sf, 'w') as f:
+            json.dump(spec, f)
+        try:
+            p = subprocess.run([sys.executable, '-m', 'pv.c11worker', sf], stdout=subprocess.PIPE, stderr=subprocess.PIPE, timeout=150, text=True)
+            res = json.loads(p.stdout.strip().split('\n')[-1])['reentrant']
+        except subprocess.TimeoutExpired:
+            sh.inconclusive.append(f're-entrancy probe {i}/{h} timed out')
+            continue
+        except Exception as e:  # noqa
+            sh.inconclusive.append(f're-entrancy probe {i}/{h} failed: {type(e).__name__}: {str(e)[:80]}')
+            continue
+        sh.case(['reentrant', spec['at'], spec['warm'], h], nontrivial=True, sample={'monitor': 're-entrancy', 'at': spec['at'], 'entries': res.get('entries')})
+        sh.count('obs.reentrant_probes')
+        case = {'kind': 'reentrant', 'spec': spec}
+        if res.get('stuck'):
+            sh.violation('schedule', 'reentrant:outer-parse-never-returns', f'inner parse started at function entry {spec["at"]} of the outer one: the thread sat at one instruction', case)
+            continue
+        if res.get('inner') is None:
+            sh.count('obs.reentrant_inner_not_reached')
+            continue
+        sh.count('obs.reentrant_inner_parses')
+        if res['outer'] != res['seq'][0] or res['inner'] != res['seq'][1]:
+            sh.violation('schedule', 'reentrant:outcome-differs', f'at entry {spec["at"]}: outer {str(res["outer"])[:24]} / inner {str(res["inner"])[:24]} vs alone '
+                         f'{res["seq"][0][:24]} / {res["seq"][1][:24]}', case)
+
+
 def plan(tier, seed):
     return [{'shard': i, 'of': 16, 'hashseed': (seed * 31 + i * 7919) % 4294967295} for i in range(16)]
 
@@ -510,7 +602,9 @@ def run_shard(spec, tier, seed, budget_s):
         sh.count('obs.pool_invalid_documents_rejected', ok_bad)
     run_workers(sh, seed, i, tier, valid, synbad, sembad)      # first: fresh worker processes
     mon_history(sh, seed, i, tier, valid, synbad, sembad)
+    mon_reentrant(sh, seed, i, tier, valid)
     mon_interleaved(sh, seed, i, tier, valid)
+    mon_environment(sh, seed, i, tier, valid)
     mon_filehistory(sh, seed, i, tier, valid)
     mon_isolation(sh, seed, i, tier, valid)
     mon_reclaim(sh, seed, i, tier, valid, synbad, sembad)
